@@ -324,6 +324,13 @@ func (db *TempPool) OperationHashes(
 				ops = nops
 
 				opsindex--
+
+				// NOTE the entries behind the removed one moved forward
+				for i := range facts {
+					if facts[i] > prev {
+						facts[i]--
+					}
+				}
 			}
 
 			ops[opsindex] = [2]util.Hash{meta.Operation(), meta.Fact()}
